@@ -20,6 +20,7 @@ import (
 	"fmt"
 	"go/ast"
 	"go/parser"
+	"go/printer"
 	"go/token"
 	"hash"
 	"os"
@@ -346,6 +347,49 @@ func interopChunkRT(senderKB, recvKB int) bool {
 	return true
 }
 
+// interopCreateSessionCert reports whether func CreateSession contains a composite literal of ua.CreateSessionResponse
+// whose ServerCertificate field is the selector expression <x>.srv.cfg.certificate.
+func interopCreateSessionCert(file string) (bool, error) {
+	fset := token.NewFileSet()
+	f, err := parser.ParseFile(fset, file, nil, 0)
+	if err != nil {
+		return false, err
+	}
+	found, ok := 0, false
+	for _, d := range f.Decls {
+		fd, isFn := d.(*ast.FuncDecl)
+		if !isFn || fd.Name.Name != "CreateSession" || fd.Body == nil {
+			continue
+		}
+		ast.Inspect(fd.Body, func(n ast.Node) bool {
+			cl, isCl := n.(*ast.CompositeLit)
+			if !isCl {
+				return true
+			}
+			if se, isSel := cl.Type.(*ast.SelectorExpr); !isSel || se.Sel.Name != "CreateSessionResponse" {
+				return true
+			}
+			for _, el := range cl.Elts {
+				kv, isKV := el.(*ast.KeyValueExpr)
+				if !isKV {
+					continue
+				}
+				if k, isID := kv.Key.(*ast.Ident); isID && k.Name == "ServerCertificate" {
+					found++
+					var sb strings.Builder
+					printer.Fprint(&sb, fset, kv.Value)
+					ok = strings.HasSuffix(sb.String(), ".srv.cfg.certificate")
+				}
+			}
+			return true
+		})
+	}
+	if found != 1 {
+		return false, fmt.Errorf("%s: expected one CreateSessionResponse literal with a ServerCertificate field in CreateSession, found %d", file, found)
+	}
+	return ok, nil
+}
+
 func genInterop(repo string) (string, error) {
 	var b strings.Builder
 	b.WriteString("(* GENERATED by go/cmd/translate/interop_tables.go by calling uapolicy.Symmetric/Asymmetric and parsing server/session_service.go, client.go. Do not edit. *)\n")
@@ -407,9 +451,13 @@ func genInterop(repo string) (string, error) {
 	sizes := []int{128, 256, 384, 512}
 	first := true
 	for _, u := range uris {
-		for _, l := range sizes {
+		for _, l := range append([]int{0}, sizes...) { // local 0 = no local key (a client without certificate)
 			for _, r := range sizes {
-				lk, rk := fakeKey(l), fakeKey(r)
+				var lk *rsa.PrivateKey
+				if l > 0 {
+					lk = fakeKey(l)
+				}
+				rk := fakeKey(r)
 				a, err := uapolicy.Asymmetric(u, lk, &rk.PublicKey)
 				if !first {
 					b.WriteString(";\n")
@@ -435,6 +483,14 @@ func genInterop(repo string) (string, error) {
 		}
 	}
 	b.WriteString("\n].\n\n")
+
+	// CreateSessionResponse.ServerCertificate: the client encrypts user-name passwords with it (EncryptUserPassword),
+	// also on the None/None endpoint, whose user token policies name the secured policies the server enables
+	certOK, err := interopCreateSessionCert(filepath.Join(repo, "server/session_service.go"))
+	if err != nil {
+		return "", err
+	}
+	fmt.Fprintf(&b, "(* server/session_service.go CreateSession: the CreateSessionResponse literal sets ServerCertificate to s.srv.cfg.certificate itself (not to something computed under a condition) *)\nDefinition create_session_sends_certificate : bool := %v.\n\n", certOK)
 
 	sn, err := interopConstInt(filepath.Join(repo, "server/session_service.go"), "sessionNonceLength")
 	if err != nil {
